@@ -52,25 +52,25 @@ def diamond(run='args'):
     }
 
 
-def mount2():
+def mount2(n1='n1', n2='n2', name='mount2'):
     """one config FILE {x -> y} mounted `as n1` and `as n2` under a root task z reading n1::y and n2::y; variants set the
     per-namespace context values."""
     def ctx(v1, v2, glob=None):
         c = {'kind': 'dict', 'data': {} if glob is None else {'px': glob}, 'for_namespaces': {}}
         if v1 is not None:
-            c['for_namespaces']['n1'] = {'px': v1}
+            c['for_namespaces'][n1] = {'px': v1}
         if v2 is not None:
-            c['for_namespaces']['n2'] = {'px': v2}
+            c['for_namespaces'][n2] = {'px': v2}
         return c
     return {
-        'name': 'mount2',
+        'name': name,
         'tasks': {
             'X': {'params': [P('px', default=0)], 'inputs': [], 'data': 'json'},
             'Y': {'params': [], 'inputs': [by_class('X')], 'data': 'json'},
-            'Z': {'params': [], 'inputs': [by_name('n1::y'), by_name('n2::y')], 'data': 'json'},
+            'Z': {'params': [], 'inputs': [by_name(f'{n1}::y'), by_name(f'{n2}::y')], 'data': 'json'},
         },
         'configs': {
-            'root': {'medium': 'json', 'tasks': ['Z'], 'values': {}, 'uses': [{'config': 'sub', 'as': 'n1'}, {'config': 'sub', 'as': 'n2'}]},
+            'root': {'medium': 'json', 'tasks': ['Z'], 'values': {}, 'uses': [{'config': 'sub', 'as': n1}, {'config': 'sub', 'as': n2}]},
             'sub': {'medium': 'json', 'tasks': ['X', 'Y'], 'values': {}},
         },
         'root': 'root',
@@ -81,8 +81,17 @@ def mount2():
             'v21': [[['context'], ctx(2, 1)]],
             'vg': [[['context'], ctx(None, None, glob=1)]],
             'vg2': [[['context'], ctx(None, 2, glob=1)]],
+            'v1_': [[['context'], ctx(1, None)]],
+            'v_1': [[['context'], ctx(None, 1)]],
         },
     }
+
+
+def mount2p():
+    """as mount2, but one namespace name is a textual prefix of the other (m / m2), and an override for one only"""
+    d = mount2('m', 'm2', name='mount2p')
+    d['variants'] = {k: d['variants'][k] for k in ('v1_', 'v_1', 'v12', 'v11')}
+    return d
 
 
 def uses2():
@@ -190,4 +199,4 @@ def types_line():
     }
 
 
-ALL = {f.__name__: f for f in (chain3, diamond, mount2, uses2, parts, optpat, ctxmove, types_line)}
+ALL = {f.__name__: f for f in (chain3, diamond, mount2, mount2p, uses2, parts, optpat, ctxmove, types_line)}
